@@ -101,3 +101,16 @@
 (declare-fun offRepr (Int) Str)        ; decimal text of an offset followed by a backslash: "5\"
 (declare-fun sprintf1 (Str Val) Str)   ; fmt.Sprintf(format, arg)
 (declare-fun bytesStr ((Array Int Int) Int Int) Str)   ; string(b) for a byte slice (row, off, len)
+
+; ---- //bits (C13): bits of non-negative integers ------------------------------------------------------
+; bit v k: bit k of the non-negative integer v. ASSUMED textbook facts (two's complement, v >= 0):
+(declare-fun bit (Int Int) Bool)
+(declare-fun tz (Int) Int)             ; bits.TrailingZeros64(uint64(v)) for v > 0
+(assert (forall ((k Int)) (! (not (bit 0 k)) :pattern ((bit 0 k)))))
+(assert (forall ((v Int)) (! (=> (> v 0) (and (<= 0 (tz v)) (< (tz v) 63) (bit v (tz v)))) :pattern ((tz v)))))
+(assert (forall ((v Int) (j Int)) (! (=> (and (> v 0) (<= 0 j) (< j (tz v))) (not (bit v j))) :pattern ((tz v) (bit v j)))))
+; v & (v-1) clears the lowest set bit
+(assert (forall ((v Int)) (! (=> (> v 0) (and (<= 0 (bitand v (- v 1))) (< (bitand v (- v 1)) v))) :pattern ((bitand v (- v 1))))))
+(assert (forall ((v Int) (k Int)) (! (=> (> v 0) (= (bit (bitand v (- v 1)) k) (and (bit v k) (not (= k (tz v)))))) :pattern ((bit (bitand v (- v 1)) k)))))
+; int -> float64 keeps the sign
+(assert (forall ((v Int)) (! (= (fp.lt (i2f v) ((_ to_fp 11 53) RNE 0.0)) (< v 0)) :pattern ((i2f v)))))
